@@ -575,6 +575,11 @@ def oracle_run(spec: dict, pspec, fault: str | None = None, max_rounds: int | No
                 d = snap_diff(snap_b, snapshot(model, reg))
                 if d:
                     fail("readonly-on-raise", f"analysis pass raised {raised} and left the model changed", d)
+            elif not p.in_place and not p.changes_input:
+                # a functional pass "does not modify the input model" - also when it ends in an exception
+                d = snap_diff(snap_b, snapshot(model, reg))
+                if d:
+                    fail("identity", f"functional pass raised {raised} and left its input changed", d)
             break
         out = res.model
         same = out is model
